@@ -9,6 +9,7 @@ CONSTANTS
   FailKinds <- AllFails
   AnyOrder = TRUE
   Canon = FALSE
+  Elapse <- ElapseAll
   OutcomeVecs <- GenVecs
   Arrivals <- GenArrivals
 INVARIANTS EmitRun Bound
